@@ -22,11 +22,11 @@ package grammar
 
 import (
 	"fmt"
-	"regexp"
 	"go/ast"
 	"go/constant"
 	"go/token"
 	"go/types"
+	"regexp"
 	"sort"
 	"strings"
 
@@ -50,7 +50,10 @@ type Spec struct {
 	// FixFromMake: token produced by `<prim>(buf)` where buf = make([]byte, k):
 	// primitive name -> format with %d (e.g. "readFull" -> "Fix%d").
 	BufPrims map[string]string
-	MaxDepth int
+	// FieldBufLen gives the constant length of scratch-buffer fields
+	// (verified separately by the rule that uses it).
+	FieldBufLen map[string]int64
+	MaxDepth    int
 }
 
 // Extractor holds the state of one extraction.
@@ -373,10 +376,19 @@ func (e *Extractor) callToken(info *types.Info, c *ast.CallExpr) *node {
 				return &node{kind: "tok", text: fmt.Sprintf(fmtStr, k)}
 			}
 		}
+		if fv := core.FieldOf(info, arg); fv != nil {
+			if k, ok := e.S.FieldBufLen[fv.Name()]; ok {
+				return &node{kind: "tok", text: fmt.Sprintf(fmtStr, k)}
+			}
+		}
 		e.undec("%s: width of the buffer passed to %s is not a visible constant", e.C.Pos(c.Pos()), name)
 		return &node{kind: "tok", text: fmt.Sprintf(fmtStr, -1)}
 	}
-	if e.S.Inline != nil && e.S.Inline(f) {
+	isIfaceMethod := false
+	if sig, ok := f.Type().(*types.Signature); ok && sig.Recv() != nil {
+		_, isIfaceMethod = sig.Recv().Type().Underlying().(*types.Interface)
+	}
+	if e.S.Inline != nil && e.S.Inline(f) && !isIfaceMethod {
 		fn := e.C.FnOf(f)
 		if fn == nil || fn.Decl.Body == nil {
 			e.undec("%s: helper %s has no body to inline", e.C.Pos(c.Pos()), name)
